@@ -140,42 +140,44 @@ type applyRec struct {
 	term  uint64
 	dig   uint64
 	typ   raftpb.EntryType
+	data  []byte // payload of a normal entry of a partition group (for the shadow state machine)
 }
 
 type Sim struct {
-	cfg        W3Cfg
-	out        *Outcome
-	baseDir    string
-	t0         time.Time
-	rnet       *simrt.Rand
-	rburst     *simrt.Rand
-	deepYields int
-	longYields int
-	trackItems   bool            // record which item changes the applied partition entries carry
-	appliedItems map[string]bool // "kind/item id/version" of every item change some replica applied
-	rfault     *simrt.Rand
-	ryield     *simrt.Rand
-	nodes      []*simNode
-	byId       map[uint64]*simNode
-	byAddr     map[string]*simNode
-	byDB       map[*badger.DB]*simNode
-	dbInc      map[*badger.DB]int
-	mu         sync.Mutex // guards inbox, seq (product goroutines post, driver drains)
-	inbox      []func()
-	calls      []*simCall
-	seq        uint64
-	postSeq    uint64
-	events     []*simEvent // heap by (at, seq)
-	evSeq      uint64
-	blocked    map[[2]uint64]bool // directed link from->to blocked
-	h          uint64
-	log        []string
-	wantLog    bool
-	applies    []applyRec
-	steps      int
-	gcNext     uint64 // heap size at which the driver collects garbage (at quiescence)
-	gcs        int
-	stopped    bool
+	cfg                                     W3Cfg
+	out                                     *Outcome
+	baseDir                                 string
+	t0                                      time.Time
+	rnet                                    *simrt.Rand
+	rburst                                  *simrt.Rand
+	deepYields                              int
+	longYields                              int
+	yieldWindow, deepInWindow, longInWindow int
+	trackItems                              bool            // record which item changes the applied partition entries carry
+	appliedItems                            map[string]bool // "kind/item id/version" of every item change some replica applied
+	rfault                                  *simrt.Rand
+	ryield                                  *simrt.Rand
+	nodes                                   []*simNode
+	byId                                    map[uint64]*simNode
+	byAddr                                  map[string]*simNode
+	byDB                                    map[*badger.DB]*simNode
+	dbInc                                   map[*badger.DB]int
+	mu                                      sync.Mutex // guards inbox, seq (product goroutines post, driver drains)
+	inbox                                   []func()
+	calls                                   []*simCall
+	seq                                     uint64
+	postSeq                                 uint64
+	events                                  []*simEvent // heap by (at, seq)
+	evSeq                                   uint64
+	blocked                                 map[[2]uint64]bool // directed link from->to blocked
+	h                                       uint64
+	log                                     []string
+	wantLog                                 bool
+	applies                                 []applyRec
+	steps                                   int
+	gcNext                                  uint64 // heap size at which the driver collects garbage (at quiescence)
+	gcs                                     int
+	stopped                                 bool
 	// observers
 	onRaftMsg      func(from *simNode, to uint64, group uuid.UUID, m raftpb.Message)
 	onApply        func(a applyRec)
@@ -349,12 +351,20 @@ func newSim(cfg W3Cfg, out *Outcome, wantLog bool) *Sim {
 		if yp > 0 || deep > 0 {
 			// a function of the seed, the goroutine's label and its own draw count: no shared stream
 			z := mix64(yseed ^ runtimeVerifGetTag()*0x9e3779b97f4a7c15 ^ runtimeVerifNextCount()<<20 ^ uint64(site))
-			if deep > 0 && int((z>>16)%1024) < deep && s.deepYields < 1500 {
+			if deep > 0 && int((z>>16)%1024) < deep {
+				// budgets per 4 simulated seconds, so that late phases of a run get their share
+				if w := int(time.Since(s.t0) / (4 * time.Second)); w != s.yieldWindow {
+					s.yieldWindow, s.deepInWindow, s.longInWindow = w, 0, 0
+				}
+			}
+			if deep > 0 && int((z>>16)%1024) < deep && s.deepInWindow < 400 {
 				// everybody else runs until it blocks (whole chains of hand-offs: a raft message
 				// received, persisted and applied), then this goroutine goes on
 				s.deepYields++
+				s.deepInWindow++
 				d := time.Nanosecond
-				if (z>>30)%4 == 0 && s.longYields < 24 { // (bounded: simulated time must stay dominated by the system's own timers)
+				if (z>>30)%4 == 0 && s.longInWindow < 8 {
+					s.longInWindow++ // (bounded: simulated time must stay dominated by the system's own timers)
 					// ... or is not scheduled for a few milliseconds, during which the network goes on delivering
 					d = time.Duration(500+(z>>32)%3500) * time.Microsecond
 					s.longYields++
@@ -375,6 +385,9 @@ func newSim(cfg W3Cfg, out *Outcome, wantLog bool) *Sim {
 			return // a goroutine of a crashed incarnation that has not reached its parking place yet: the process is gone
 		}
 		a := applyRec{node: nodeId, inc: inc, group: group, index: e.Index, term: e.Term, dig: simrt.HashBytes(uint64(e.Type)+1, e.Data), typ: e.Type}
+		if e.Type == raftpb.EntryNormal && len(e.Data) > 0 && !uuid.Equal(group, uuid.Nil) {
+			a.data = e.Data
+		}
 		if s.trackItems && e.Type == raftpb.EntryNormal && len(e.Data) > 0 && !uuid.Equal(group, uuid.Nil) {
 			// which item changes this entry carries (kind 0 insert, 1 update, 2 remove / item id / vector version)
 			var ch pb.PartitionChange
